@@ -47,6 +47,8 @@ def direct_cases(ctx):
                  "9999-99-99", "0000-00-00", "2025-13-45", "2025-06-18-01", "2025.06.18", "DRAFT-2025-v2", "1.0", "2.0"]
     for m in malformed:
         yield {"req": m}
+    for v in NEIGHBOUR_VERSIONS:
+        yield {"req": v}
     for ns in [None, 0, 1, 20250618, 2025.0618, True, False, [], ["2025-06-18"], {}, {"v": "2025-06-18"},
                -1, 2**63]:
         yield {"req": ns, "nonstring": True}
@@ -64,6 +66,43 @@ def direct_cases(ctx):
                     yield {"req": f"{yy:04d}-{mm:02d}-{dd2:02d}"}
         for _ in range(5000):
             yield {"req": f"{rng.randint(1925, 2124):04d}-{rng.randint(1, 12):02d}-{rng.randint(1, 31):02d}"}
+
+
+# versions that other server objects of the process are configured with (through whatever constructor arguments mention
+# versions) - the plain server under test has nothing to do with them
+NEIGHBOUR_VERSIONS = ["2025-11-25", "2031-01-01", "2024-10-07"]
+
+
+def configured_neighbours(ctx):
+    """Server objects of the same process built with every optional constructor argument that speaks of versions set to
+    well-formed versions the library does not support (discovered by signature; none on the current tree means none).
+    They are kept alive for the whole run. What they were told must not show in a plain server's answers."""
+    import inspect
+    from chuk_mcp.server.server import MCPServer
+    from chuk_mcp.server.protocol_handler import ProtocolHandler
+    from chuk_mcp.protocol.types.info import ServerInfo
+    from chuk_mcp.protocol.types.capabilities import ServerCapabilities
+    keep, used = [], []
+    for cls, base_args in ((MCPServer, lambda: (("n",), {})),
+                           (ProtocolHandler, lambda: ((ServerInfo(name="n", version="1"), ServerCapabilities()), {}))):
+        try:
+            params = inspect.signature(cls.__init__).parameters
+        except (TypeError, ValueError):
+            continue
+        for pname, prm in params.items():
+            if pname == "self" or prm.default is prm.empty or "version" not in pname.lower():
+                continue
+            for value in (list(NEIGHBOUR_VERSIONS), tuple(NEIGHBOUR_VERSIONS), NEIGHBOUR_VERSIONS[0], set(NEIGHBOUR_VERSIONS)):
+                a, kw = base_args()
+                try:
+                    keep.append(cls(*a, **dict(kw, **{pname: value})))
+                    used.append(f"{cls.__name__}({pname}={type(value).__name__})")
+                    break
+                except Exception:  # noqa
+                    continue
+    ctx.extra["configured_neighbours"] = used
+    ctx.count("configured_neighbours", len(used))
+    return keep
 
 
 UNIVERSE = ["2025-06-18", "2025-03-26", "2024-11-05", "2026-01-01", "2023-01-01", "1.0"]
@@ -138,6 +177,7 @@ def run(ctx):
                       f"{sorted(set(touched))} the library's own supported list is {list(SUPPORTED_VERSIONS)} (was {supported})",
                       {"accessors": sorted(set(touched))})
 
+    _neighbours = configured_neighbours(ctx)  # noqa: F841 - alive until the run ends
     dcases = [c for c in direct_cases(ctx) if ctx.mine()]
 
     async def direct_batch(cs):
